@@ -306,7 +306,7 @@ def run(ctx):
     # ---------------- masks: from_bits accepts n iff all set bits are declared (compiled code, CBMC over all 2^32 numbers)
     import kani
     hs = ["gen::proofs::k_mask_%s" % m for m in sorted(masks)]
-    res = kani.run_many(hs, cap_s=300, workers=6)
+    res = kani.run_many(hs, cap_s=1200, workers=6)
     kani.settle(ctx, res, lambda h: "mask_" + h.split("k_mask_")[1])
     ctx.functions.update("spirv::%s::from_bits" % m for m in masks)
     ctx.bounds.append("masks: all 2^32 numbers for each of the %d bitflags types (Kani/CBMC)" % len(masks))
